@@ -186,6 +186,33 @@ def run(tier):
         if v in declared:
             chk.count("V1:declared-type-not-inductive")
             continue
+        if why.get("stage") == "step" and isinstance(why.get("assign"), dict) and why["assign"]:
+            # The validator quantifies over ALL combinations of typed values; the property speaks about reachable states only.  A
+            # witness that starts from an unreachable combination (two variables on different points of a finite orbit) is an
+            # incompleteness of the product-of-types abstraction, not a defect: the witness counts only if its start state occurs
+            # in the exact joint law of the typed variables at some n <= 6.
+            from ..common import model_one
+            vi = vmeta.index((c, it, types, declared))
+            tv_names = sorted(why["assign"])
+            s0v = dict(lean_sigma0(c))
+            nm_ = set()
+            _walk_vars(vreqs[vi]["program"], nm_)
+            for x_ in nm_:
+                s0v.setdefault(x_, ARB)
+            want = [Fr(why["assign"][x_]) for x_ in tv_names]
+            reachable = None
+            for n_ in range(0, 7):
+                dans = model_one({"op": "dist", "program": vreqs[vi]["program"], "n": n_, "vars": tv_names, "sigma0": s0v}, timeout=60)
+                if not dans.get("ok"):
+                    reachable = None
+                    break
+                reachable = False
+                if any(Fr(w_) != 0 and [Fr(y_) for y_ in vals_] == want for w_, vals_ in dans["dist"]):
+                    reachable = True
+                    break
+            if reachable is not True:
+                chk.count("V1:not-inductive-from-unreachable-state" if reachable is False else "V1:not-inductive-reachability-undecided")
+                continue
         rec = {"case": c, "fp_iterations": it, "variable": v, "kind": "not-inductive", "why": why, "type": types.get(v)}
         fid = attribute(PROP, rec)
         if fid:
